@@ -491,7 +491,10 @@ pub async fn upgrade(
 
     debug!(
         "listen addresses for nodes[0]: {:?}",
-        node_registry.nodes[0].listen_addr
+        node_registry
+            .nodes
+            .first()
+            .and_then(|n| n.listen_addr.as_ref())
     );
     if !use_force {
         let node_versions = node_registry
